@@ -5,6 +5,7 @@ import (
 	"math"
 	"math/big"
 	"regexp"
+	"sort"
 	"strconv"
 	"strings"
 	"time"
@@ -48,6 +49,10 @@ func unitString(r *wk.Rand, units string, n int64) (string, bool) {
 	base := unitBaseName[units]
 	if len(ms) > 0 && r.Bool() {
 		u := wk.Pick(r, ms)
+		if r.Chance(12) {
+			// a larger unit with the count zero is still a well-formed component
+			return fmt.Sprintf("0%s%s%d%s", u.name, wk.Pick(r, []string{"", " "}), n, base), true
+		}
 		if n >= u.mult {
 			q, rem := n/u.mult, n%u.mult
 			s := fmt.Sprintf("%d%s", q, u.name)
@@ -862,6 +867,10 @@ func HostileValue(r *wk.Rand) (string, any) {
 		{"string", "str"},
 		{"empty-string", ""},
 		{"numeric-string", "12"},
+		{"unit-string-zero-minutes", "0m"},
+		{"unit-string-zero-in-the-middle", "1H 0m 30s"},
+		{"unit-string-zero-kB", "0kB 5B"},
+		{"unit-string-zero-s-ns", "0s30ns"},
 		{"bool", true},
 		{"bytes", []byte{1, 2, 3}},
 		{"empty-bytes", []byte{}},
@@ -995,6 +1004,69 @@ var _ = strings.TrimSpace
 // InsertOddKey picks a random map node of a raw tree, turns it into a map[any]any and adds an entry
 // with a key decoders can produce but schemas mostly do not expect (NaN, integers, bools, nil-ish).
 // Returns ok=false if the tree has no map node.
+// AddCollidingKey gives one map of the tree a second key that denotes the same key as an existing one
+// (the integer 7 beside "7", or the other way round). Returns false if the tree has no such map.
+func AddCollidingKey(r *wk.Rand, v any) (any, bool) {
+	type cand struct {
+		m    map[any]any
+		twin any
+		val  any
+	}
+	var cands []cand
+	var walk func(cur any)
+	walk = func(cur any) {
+		switch x := cur.(type) {
+		case []any:
+			for _, e := range x {
+				walk(e)
+			}
+		case map[string]any:
+			for _, e := range x {
+				walk(e)
+			}
+		case map[any]any:
+			for k, e := range x {
+				switch kk := k.(type) {
+				case int64:
+					cands = append(cands, cand{x, fmt.Sprint(kk), e})
+				case string:
+					if n, err := strconv.ParseInt(kk, 10, 64); err == nil && fmt.Sprint(n) == kk {
+						cands = append(cands, cand{x, n, e})
+					}
+				}
+				walk(e)
+			}
+		}
+	}
+	walk(v)
+	if len(cands) == 0 {
+		return v, false
+	}
+	sort.Slice(cands, func(i, j int) bool { return fmt.Sprint(cands[i].twin) < fmt.Sprint(cands[j].twin) })
+	c := cands[r.Intn(len(cands))]
+	if _, exists := c.m[c.twin]; exists {
+		return v, false
+	}
+	if len(c.m) >= 2 && r.Bool() {
+		// keep the number of raw keys: another entry makes room for the twin, so that the map shrinks by one
+		// when the two are merged (a size bound counted on the raw keys no longer holds for the result)
+		var others []string
+		byName := map[string]any{}
+		for k := range c.m {
+			if fmt.Sprint(k) != fmt.Sprint(c.twin) {
+				others = append(others, fmt.Sprintf("%T:%v", k, k))
+				byName[fmt.Sprintf("%T:%v", k, k)] = k
+			}
+		}
+		sort.Strings(others)
+		if len(others) >= 2 {
+			delete(c.m, byName[others[len(others)-1]])
+		}
+	}
+	c.m[c.twin] = CopyRaw(c.val)
+	return v, true
+}
+
 func InsertOddKey(r *wk.Rand, v any) (any, string, bool) {
 	type node struct {
 		path string
@@ -1183,6 +1255,29 @@ func TrickyShapes() []*Shape {
 			obj("Leaf", &Prop{Name: "z", T: &Shape{Kind: KInt}, Default: jsonText(int64(1))})),
 		// two-property recursive object: the shorthand must not apply
 		scope("N", obj("N", p("v", &Shape{Kind: KInt}), p("next", ref("N")))),
+	}
+}
+
+// SelfExpandingShapes are scopes in which a default leads back to the property it belongs to: every level applies
+// the default again, so no finite value exists for an input that leaves the property out. The constructors are
+// expected to refuse them; whatever they accept must still terminate on every input.
+func SelfExpandingShapes() []*Shape {
+	ref := func(id string) *Shape { return &Shape{Kind: KRef, RefID: id} }
+	obj := func(id string, props ...*Prop) *Shape { return &Shape{Kind: KObject, ID: id, Props: props} }
+	p := func(name string, t *Shape) *Prop { return &Prop{Name: name, T: t} }
+	pd := func(name string, t *Shape, def any) *Prop { return &Prop{Name: name, T: t, Default: jsonText(def)} }
+	scope := func(root string, objs ...*Shape) *Shape { return &Shape{Kind: KScope, Root: root, Objects: objs} }
+	lit := func() *Shape { return obj("Lit", p("v", &Shape{Kind: KInt})) }
+	return []*Shape{
+		scope("Node", obj("Node", pd("next", ref("Node"), map[string]any{}), p("v", &Shape{Kind: KInt}))),
+		scope("E", obj("E", pd("e", &Shape{Kind: KOneOfStr, Disc: "_type", Members: []*Member{{KeyS: "lit", T: ref("Lit")}, {KeyS: "neg", T: ref("E")}}}, map[string]any{"_type": "neg"})), lit()),
+		scope("E", obj("E", pd("e", &Shape{Kind: KOneOfInt, Disc: "_type", Members: []*Member{{KeyI: 1, T: ref("Lit")}, {KeyI: 2, T: ref("E")}}}, map[string]any{"_type": int64(2)})), lit()),
+		scope("E", obj("E", pd("e", &Shape{Kind: KList, Items: &Shape{Kind: KOneOfInt, Disc: "k", Members: []*Member{{KeyI: 0, T: ref("Lit")}, {KeyI: 1, T: ref("E")}}}}, []any{map[string]any{"k": int64(1)}})), lit()),
+		scope("T", obj("T", pd("children", &Shape{Kind: KList, Items: ref("T")}, []any{map[string]any{}}))),
+		scope("M", obj("M", pd("m", &Shape{Kind: KMap, Keys: &Shape{Kind: KString}, Vals: ref("M")}, map[string]any{"k": map[string]any{}}))),
+		scope("O1", obj("O1", p("items", obj("Obj4", pd("d", ref("O1"), map[string]any{"items": map[string]any{}}))))),
+		scope("A", obj("A", pd("b", ref("B"), map[string]any{})), obj("B", pd("a", ref("A"), map[string]any{}))),
+		scope("A", obj("A", pd("b", ref("B"), map[string]any{"a": map[string]any{}})), obj("B", p("a", ref("A")))),
 	}
 }
 
